@@ -19,6 +19,31 @@ import time
 QUIET = {"NOT_INITIALIZED", "INITIALIZED", "STOPPED", "ENDED"}
 
 
+class ModelAbort(BaseException):
+    """what a model handler may raise that is not an Exception (deliberately not
+    SystemExit / KeyboardInterrupt / GeneratorExit, so the harness itself survives)"""
+
+
+class ModelError(Exception):
+    pass
+
+
+def raise_fault(kind):
+    if kind == "base":
+        raise ModelAbort("injected fault (BaseException subclass)")
+    if kind == "value":
+        raise ValueError("injected fault")
+    if kind == "key":
+        raise KeyError("injected fault")
+    if kind == "zerodiv":
+        return 1 // 0
+    if kind == "custom":
+        raise ModelError("injected fault")
+    if kind == "stopiter":
+        raise StopIteration("injected fault")
+    raise RuntimeError("injected fault")
+
+
 def main():
     cases = json.load(sys.stdin)
     real_out = sys.stdout
@@ -26,12 +51,20 @@ def main():
     sys.stderr = io.StringIO()
     logging.disable(logging.CRITICAL)
     res = []
+    hung = 0
     for idx, case in enumerate(cases):
         sys.stdout.seek(0); sys.stdout.truncate(0)
         sys.stderr.seek(0); sys.stderr.truncate(0)
+        if hung >= 4:      # a tree on which runs do not come to rest: a few witnesses are enough
+            res.append({"skipped": "earlier cases of this batch did not come to rest", "error": "skipped"})
+            continue
         try:
             res.append(run_case(case, f"vsim{idx}"))
-        except Exception as exc:  # harness-level failure
+            if res[-1].get("notes"):
+                hung += 1
+        except (KeyboardInterrupt, SystemExit):
+            raise
+        except BaseException as exc:  # harness-level failure
             import traceback
             res.append({"error": f"{type(exc).__name__}: {exc}", "tb": traceback.format_exc()[-1500:]})
     real_out.write(json.dumps(res))
@@ -136,7 +169,9 @@ def run_case(case, name):
             return "ok"
         except DSOLError:
             return "refused"
-        except Exception as exc:  # noqa
+        except (KeyboardInterrupt, SystemExit, GeneratorExit):
+            raise
+        except BaseException as exc:  # noqa: also what is not an Exception must not take the harness down
             return "exc:" + type(exc).__name__
 
     class ProgModel(DSOLModel):
@@ -189,7 +224,7 @@ def run_case(case, name):
                             rec["canc"].append(a[1])
                         rec["log"].append(["cancel", a[1], bool(was), sim.eventlist().contains(self.created[a[1]])])
                 elif kind == "fail":
-                    raise RuntimeError("injected fault")
+                    raise_fault(a[1] if len(a) > 1 else "runtime")
                 elif kind == "cmd":
                     r = issue(a[1])
                     rec["outs"].append({"ok": "cmdok", "refused": "cmdref"}.get(r, r))
